@@ -136,12 +136,14 @@ fn repair_stream<R: Read>(src: R, cfg: &Cfg) -> Result<(String, u64), String> {
     Ok((format!("{status:?}").split(['(', ' ', '{']).next().unwrap_or("").to_string(), sink.n))
 }
 
-fn linear_stream<R: Read + io::Seek>(src: R, cfg: &Cfg) -> Result<u64, String> {
+/// `select` = which files are asked for: every file, or none (every block is then skipped: a block is
+/// as long as the caller of `add_file` made it, here a whole file)
+fn linear_stream<R: Read + io::Seek>(src: R, cfg: &Cfg, select: bool) -> Result<u64, String> {
     let mut r = ArchiveReader::from_config(src, cfg.reader_config()).map_err(|e| format!("open:{}", err_class(&e)))?;
     let names: Vec<String> = r.list_files().map_err(|e| format!("list:{}", err_class(&e)))?.cloned().collect();
     let mut export: HashMap<&String, CountSink> = HashMap::new();
     for n in &names {
-        export.insert(n, CountSink::default());
+        if select { export.insert(n, CountSink::default()); }
     }
     linear_extract(&mut r, &mut export).map_err(|e| format!("linear:{}", err_class(&e)))?;
     Ok(export.values().map(|s| s.n).sum())
@@ -210,7 +212,15 @@ fn run_case(rep: &mut Report, dir: &std::path::Path, layers: u8, files: &[(Strin
     }
     // (c) linear extraction
     let f = std::fs::File::open(&path).expect("open scratch archive");
-    let (res, lpeak, lbig) = measured(|| linear_stream(f, &cfg));
+    let (res, lpeak, lbig) = measured(|| linear_stream(f, &cfg, true));
+    // … and with no file selected: skipped blocks must be discarded as they stream by
+    let f = std::fs::File::open(&path).expect("open scratch archive");
+    let (res0, lpeak0, lbig0) = measured(|| linear_stream(f, &cfg, false));
+    if res0 != Ok(0) {
+        rep.violation("oracle", "C15/linear-works", json!({"stage":"linear-skip"}), &format!("linear extraction with no file selected: {res0:?}"), case.clone());
+        ok = false;
+    }
+    let (lpeak, lbig) = (lpeak.max(lpeak0), lbig.max(lbig0));
     let tl = t0.elapsed().as_secs_f64() - tw - tr;
     match &res {
         Ok(n) if *n == total => {}
